@@ -21,7 +21,10 @@ SPEC = {
             "third, through Advertiser.handle (counter deltas, hook, log lines; first or second delivery). rnd: larger RAs with "
             "0..3 extra prefix / route / RDNSS / DNSSL options and a peer derived by keep / change / drop / duplicate. cfg: own RA "
             "from config.Parse of generated TOML with sub-unit durations against its own wire image, directly and through handle "
-            "with the parsed plugins. dyn: ONE advertiser receives 2-4 RAs while its own RA changes in between without a "
+            "with the parsed plugins (RDNSS / DNSSL stanzas with three elements not in ascending order; a deep by-content dump of the "
+            "config.Interface taken before anything is compared must equal the dump after verifyRAs and after handle). Every direct verifyRAs "
+            "call is bracketed by deep dumps of both arguments (an altered argument is an implementation violation: cases are rendered "
+            "after the call). dyn: ONE advertiser receives 2-4 RAs while its own RA changes in between without a "
             "reinitialisation (configuration with wildcard ::/64 prefix / :: RDNSS / ::/0 route stanzas whose injected address and route "
             "lists change, a forwarding flip, a deprecated prefix / route under an advancing injected clock); the peer sends the wire "
             "image of the current own RA, of the own RA at the previous reception, or a mutated current image; every reception is one "
